@@ -128,3 +128,25 @@ func ZZ_C05_Frame() {
 	}
 	zzvf.Reach("Frame")
 }
+
+// the same client after its default license was changed (exported field; ApplyConfig assigns
+// it): each frame carries the hash of the license in effect when it is built
+//vf: paths=2000
+func ZZ_C05_FrameLicenseChange() {
+	l1, l2 := zzvf.String(2), zzvf.String(zzvf.Choose(3))
+	c := &OneWayTcpClient{License: l1}
+	p, pcode, _ := zz5fPack()
+	g1 := c.makeData(&wnet.TcpSend{Pack: p}).ToByteArray()
+	c.License = l2
+	g2 := c.makeData(&wnet.TcpSend{Pack: p}).ToByteArray()
+	g3 := c.makeData(&wnet.TcpSend{Pack: p, Opts: []wnet.TcpClientOption{wnet.WithLicense("o")}}).ToByteArray()
+	g4 := c.makeData(&wnet.TcpSend{Pack: p}).ToByteArray()
+	if len(g1) >= 18 && len(g2) >= 18 && len(g3) >= 18 && len(g4) >= 18 {
+		zzvf.Assert(zzvf.Same(g1[10:18], zz5fBE(uint64(whash.Hash64Str(l1)), 8)), "FrameLicenseChange/first-license")
+		zzvf.Assert(zzvf.Same(g2[10:18], zz5fBE(uint64(whash.Hash64Str(l2)), 8)), "FrameLicenseChange/changed-license")
+		zzvf.Assert(zzvf.Same(g3[10:18], zz5fBE(uint64(whash.Hash64Str("o")), 8)), "FrameLicenseChange/override")
+		zzvf.Assert(zzvf.Same(g4[10:18], zz5fBE(uint64(whash.Hash64Str(l2)), 8)), "FrameLicenseChange/default-again-after-override")
+		zzvf.Assert(zzvf.Same(g2[2:10], zz5fBE(uint64(pcode), 8)), "FrameLicenseChange/project-code")
+	}
+	zzvf.Reach("FrameLicenseChange")
+}
